@@ -1561,6 +1561,97 @@ def check_sign_clear(run, model, which, via, text, kind):
 
 
 # ------------------------------------------------------------------------------------------------
+# typed views: a claim that has a type is asked for the view of ANOTHER type, directly or by the file database
+# (SQLiteStorage.save_claims probes claim.stream.source.sd_hash on every claim before it serialises it)
+# ------------------------------------------------------------------------------------------------
+TYPE_CODE = {'stream': 1, 'channel': 2, 'collection': 3, 'repost': 4}
+_storage = {}
+
+
+def file_database():
+    """one real SQLiteStorage per run, in a temporary directory"""
+    if 'storage' not in _storage:
+        import asyncio
+        import tempfile
+        from lbry.conf import Config
+        from lbry.extras.daemon.storage import SQLiteStorage
+        d = tempfile.mkdtemp(prefix='c16_')
+        loop = asyncio.new_event_loop()
+        conf = Config(data_dir=d, wallet_dir=d, download_dir=d, config=os.path.join(d, 'settings.yml'))
+        st = SQLiteStorage(conf, os.path.join(d, 'lbrynet.sqlite'), loop=loop)
+        loop.run_until_complete(st.open())
+        _storage.update(storage=st, loop=loop, dir=d, n=0)
+    return _storage
+
+
+def close_file_database():
+    if 'storage' in _storage:
+        import shutil
+        try:
+            _storage['loop'].run_until_complete(_storage['storage'].close())
+            _storage['loop'].close()
+        finally:
+            shutil.rmtree(_storage['dir'], ignore_errors=True)
+            _storage.clear()
+
+
+def check_type_probe(run, model, spec, other, via, kind):
+    case = {'op': 'type-probe', 'spec': spec, 'other': other, 'via': via, 'kind': kind}
+    run.case(case, nontrivial=True)
+    run.count('type-probe:' + spec['type'] + '->' + other + ':' + via)
+    sig = {'op': 'type-probe', 'spec': spec, 'other': other, 'via': via}
+    try:
+        claim = build_claim(spec)
+        if via.startswith('parsed'):
+            claim = Claim.from_bytes(claim.to_bytes())
+        t0, raw0, view0 = claim.claim_type, claim.to_bytes(), read_back(claim)
+        bad = []
+        granted = None
+        if via in ('accessor', 'parsed-accessor'):
+            try:
+                getattr(claim, other)
+                granted = True
+            except ValueError:
+                granted = False
+            if granted != (other == t0):
+                bad.append(f'asking a {t0} claim for .{other} ' + ('did not raise ValueError' if granted else 'raised'))
+        else:
+            db = file_database()
+            db['n'] += 1
+            cid = '%040x' % db['n']
+            db['loop'].run_until_complete(db['storage'].save_claims([{
+                'claim_id': cid, 'name': 'name', 'amount': '1.0', 'address': 'bW5PZEvEBNPQRVhwpYXSjabFgbSw1oaHyR',
+                'txid': '%064x' % db['n'], 'nout': 0, 'value': claim, 'height': 100, 'claim_sequence': -1}]))
+            row = db['loop'].run_until_complete(db['storage'].db.execute_fetchall(
+                'select serialized_metadata from claim where claim_id=?', (cid,)))
+            v = row[0][0]
+            stored = bytes.fromhex(v.decode() if isinstance(v, bytes) else v)
+            if stored != raw0:
+                try:
+                    st_type = Claim.from_bytes(stored).claim_type
+                except Exception as ex:          # noqa
+                    st_type = type(ex).__name__
+                bad.append(f'the file database stored {stored.hex()[:120]} (parses back as {st_type!r}) for the {t0} claim {raw0.hex()[:120]}')
+        if claim.claim_type != t0:
+            bad.append(f'the {t0} claim has become a {claim.claim_type!r} claim')
+        elif claim.to_bytes() != raw0:
+            bad.append(f'the bytes of the {t0} claim changed: {raw0.hex()[:120]} -> {claim.to_bytes().hex()[:120]}')
+        elif read_back(claim) != view0:
+            bad.append('the fields of the claim changed: ' + '; '.join(diff_keys(read_back(claim), view0))[:300])
+    except Exception as ex:                      # noqa
+        import traceback
+        bad = [f'{type(ex).__name__}: {ex}: ' + traceback.format_exc()[-300:]]
+    if bad:
+        run.violation(case, '; '.join(bad), signature=sig)
+        return
+    if granted is not None:
+        run.compare('C16.claim_view', case, {'type': TYPE_CODE[claim.claim_type], 'granted': granted},
+                    model.call('claim_view', cur=TYPE_CODE[t0], req=TYPE_CODE[other]))
+    # and the claim still is everything its spec says
+    verify_claim(run, model, case, spec, claim, sig)
+
+
+# ------------------------------------------------------------------------------------------------
 # object independence: objects built earlier keep their bytes and values when later ones are built
 # ------------------------------------------------------------------------------------------------
 def gen_group(rng):
@@ -2439,7 +2530,8 @@ def main(run):
                 '+-90/+-180) / claim references, with and without a signature envelope (hash set directly or by id); sequences of 1..4 '
                 'further update() calls on one stream claim (fee re-priced in another currency, amount only, address only, clear_fee, title, '
                 'tags, release time), applied to the same object or to the parsed copy and verified after every step; objects with no '
-                'field at all, signed (exactly 85 bytes) and unsigned; the stored form: stream / signed stream / channel claims, supports and '
+                'field at all, signed (exactly 85 bytes) and unsigned; every claim type asked for the typed view of every other type (directly, on a '
+                'parsed copy, and through the real SQLiteStorage.save_claims) and re-read; the stored form: stream / signed stream / channel claims, supports and '
                 'purchases padded to every serialised size 70..80, 250..260 and 65530..65540 bytes, put into claim_name / update_claim / '
                 'support / OP_RETURN outputs, serialised as a transaction and read back (quick: the 65530..65540 sweep for three of the seven '
                 'shapes, thorough: all); file-replacing update steps that switch the stream type media <-> document/binary/model; groups of 2..4 purchases / supports / claims built one after another and '
@@ -2523,6 +2615,22 @@ def main(run):
     for _ in range(q(60, 1500)):
         obj, carrier = rng.choice(shapes)
         check_embedding(run, model, obj, carrier, rng.choice([0, 1, 2, 19, 36, 73, rng.randrange(0, 400)]), rng.choice([0, 0, 1, 2]), 'generated')
+    # -- typed views: every type asked for every other view, directly, on a parsed copy, and by the file database --
+    probes = {}
+    for e in load_corpus('claims.json'):
+        probes.setdefault(e['spec']['type'], e['spec'])
+    fixed = {t: sp for t, sp in (load_corpus('type_probe.json') or {}).items()}
+    for t, sp in list(fixed.items()) + [(t, probes[t]) for t in probes if t not in fixed]:
+        for other in ('stream', 'channel', 'collection', 'repost'):
+            for via in ('accessor', 'parsed-accessor'):
+                check_type_probe(run, model, sp, other, via, 'family')
+        check_type_probe(run, model, sp, 'stream', 'save_claims', 'family')
+        check_type_probe(run, model, sp, 'stream', 'parsed-save_claims', 'family')
+    for _ in range(q(60, 1500)):
+        sp = gen_claim_spec(rng)
+        check_type_probe(run, model, sp, rng.choice(['stream', 'channel', 'collection', 'repost']),
+                         rng.choice(['accessor', 'parsed-accessor', 'save_claims', 'parsed-save_claims']), 'generated')
+    close_file_database()
     for which in ('claim', 'support'):
         for via in ('object', 'parsed-copy', 'output'):
             for text in ('', 'hello', 'x' * 200):
@@ -2605,6 +2713,9 @@ def replay(run, case):
     op = case.get('op')
     if op == 'claim':
         run_claim_spec(run, model, case['spec'], 'replay')
+    elif op == 'type-probe':
+        check_type_probe(run, model, case['spec'], case['other'], case['via'], 'replay')
+        close_file_database()
     elif op == 'sign-clear':
         check_sign_clear(run, model, case['which'], case['via'], case['text'], 'replay')
     elif op == 'embed':
